@@ -64,10 +64,12 @@ def finalize(session, prop, tier, seed, expected, replayers, kf_classes,
             continue
         if r.kind == 'cover':
             covers += r.discharged
-            if r.failed:
-                # an unreachable post/pre: vacuity -> checker failure
-                undecided.append((name, 'vacuous: %d unreachable instance(s)'
-                                  % len(r.failed)))
+            if r.failed and not r.discharged and not r.unknown:
+                # no reachable instance at all: vacuity -> checker failure
+                # (single unreachable instances are infeasible paths that the
+                # exploration could not prune: harmless)
+                undecided.append((name, 'vacuous: all %d instance(s) '
+                                        'unreachable' % len(r.failed)))
             if r.unknown:
                 pass  # unknown reachability is not counted either way
             continue
